@@ -29,9 +29,39 @@ def _comp_over(ex, e, g, st, it):
     items = _static_items(ex, it)
     if items is not None:
         return _unrolled(ex, e, g, st, items)
+    if isinstance(it, PMap) and isinstance(e, ast.DictComp):
+        return _dictcomp_over_map(ex, e, g, st, it)
     if isinstance(it, PSeq) or (isinstance(it, ZV) and it.kind == 'val'):
         return _over_symbolic_seq(ex, e, g, st, it)
     raise Unsupported(f'comprehension over {it!r} (line {e.lineno} in {ex.spec.qual})')
+
+
+def _dictcomp_over_map(ex, e, g, st, m):
+    """{key: value for name in <str-keyed map>} with the loop variable as the key: evaluated for one arbitrary key of the map;
+    the value expression must have one normal outcome whose result is a term over that key"""
+    if g.ifs or m.kkind.tag != 'str': raise Unsupported('dict comprehension over this kind of map')
+    kq = fresh('kq', StringSort())
+    O = OptOf(m.vkind.sort())
+    base = st.copy(); base.assume(O.is_Some(m.arr[kq]))
+    npc = len(base.pc)
+    outs = []
+    for s1, fl in ex.assign(base, g.target, ZV('str', kq)):
+        res = ex.evs([e.key, e.value], s1)
+        normal = [(s2, v) for s2, v in res if not isinstance(v, Raise)]
+        raising = [(s2, v) for s2, v in res if isinstance(v, Raise)]
+        if len(normal) != 1: raise Unsupported(f'comprehension element with {len(normal)} normal outcomes (line {e.lineno})')
+        s_ok, (kk, vv) = normal[0]
+        if not ex.as_str(s_ok, kk).eq(kq): raise Unsupported('dict comprehension whose key is not the loop variable')
+        val = to_val(vv, s_ok)
+        conds = s_ok.pc[npc:]
+        ok = st.copy()
+        if conds: ok.assume(ForAll([kq], Implies(O.is_Some(m.arr[kq]), And(*conds))))
+        outs.append((ok, PDict(z3.Lambda([kq], If(O.is_Some(m.arr[kq]), Opt.Some(val), Opt.Absent)))))
+        for s_bad, r in raising:
+            bad = st.copy(); kb = fresh('kbad', StringSort())
+            bad.assume(*[z3.substitute(c, (kq, kb)) for c in s_bad.pc[npc - 1:]]); bad.label(f'L{e.lineno}.comp:raises')
+            if ex.feasible(bad): outs.append((bad, r))
+    return outs
 
 
 def _over_symbolic_seq(ex, e, g, st, it):
